@@ -659,7 +659,8 @@ func (c *Ctx) c03ExpiryErrorTypes() {
 			return false
 		}
 		it, ok := iface.Underlying().(*types.Interface)
-		return ok && (types.Implements(t, it) || types.Implements(types.NewPointer(t), it))
+		// the backends return the expiry error by value: the value's method set is what errors.As / errors.Is see
+		return ok && types.Implements(t, it)
 	}
 	checks := []struct {
 		name  string
@@ -674,6 +675,29 @@ func (c *Ctx) c03ExpiryErrorTypes() {
 			r.OK("R03.3", ck.name, "assignable: errors.As in the frontend recognises this backend's expiry error")
 		} else {
 			r.Bad("R03.3", ck.name, "expiry-error-not-recognised", c.Pos(errNon.Pos()), "this expiry error type does not implement the expired-item interface a frontend matches with errors.As: expired entries of that backend are treated as absent (no stale serving, no fallback on build failure)", nil)
+		}
+	}
+	// … and both match the exported sentinel: errors.Is(err, ErrExpired) finds an Is(error) bool method in the method set of the
+	// value that is returned (a pointer receiver on Is, with the error returned by value, is never consulted)
+	for _, ck := range []struct {
+		name string
+		t    types.Type
+	}{{"errExpired", errNon.Type()}, {"errExpiredOf[any]", inst(errGen)}} {
+		ok := false
+		if ck.t != nil {
+			ms := types.NewMethodSet(ck.t)
+			for i := 0; i < ms.Len(); i++ {
+				if fn, isFn := ms.At(i).Obj().(*types.Func); isFn && fn.Name() == "Is" {
+					if sig, _ := fn.Type().(*types.Signature); sig != nil && sig.Params().Len() == 1 && sig.Results().Len() == 1 {
+						ok = true
+					}
+				}
+			}
+		}
+		if ok {
+			r.OK("R03.3", ck.name+".Is", "the returned value has an Is method: errors.Is(err, ErrExpired) matches")
+		} else {
+			r.Bad("R03.3", ck.name, "sentinel-not-matched", c.Pos(errNon.Pos()), "the expiry error as returned (by value) has no Is(error) bool method in its method set: errors.Is(err, ErrExpired) is false for expired entries of that backend", nil)
 		}
 	}
 }
